@@ -34,6 +34,7 @@ PROPS = {
     "C07": dict(
         mc=[dict(tla="FeedsVote_MC.tla", cfg="FeedsVote_MC.cfg", tier="quick", timeout=300),
             dict(tla="FeedsVote_MC.tla", cfg="FeedsVote_MC_wrap.cfg", tier="quick", timeout=300),
+            dict(tla="FeedsVote_MC.tla", cfg="FeedsVote_MC_par.cfg", tier="quick", timeout=600, workers=8),
             dict(tla="FeedsVote_MC.tla", cfg="FeedsVote_MC_deep.cfg", tier="thorough", timeout=1500, workers=8)],
         gen=dict(tla="FeedsVote_Gen.tla", cfg="FeedsVote_Gen.cfg", depth=20, num=dict(quick=250, thorough=4000), timeout=900),
         drive=dict(family="restake", mode="c07", nrand=dict(quick=350, thorough=8000)),
